@@ -434,6 +434,8 @@ impl Payload {
                 (format!("arr{n}"), format!("fn v_mk()->Sequence<int>{{ range({n}).map((v_i: int)->{{v_i*3}}).to_array() }}"), 8 * n),
                 (format!("bigint{n}"), format!("fn v_mk()->int{{ 2 ** ({n} * 8) }}"), if n > 16 { n } else { 0 }),
                 (format!("tuple_of_str{n}"), format!("fn v_mk()->(str, int){{ (\"y\" * {n}, 3) }}"), n),
+                (format!("utf8-str{n}"), format!("fn v_mk()->str{{ \"日本\" * {n} }}"), 6 * n),
+                (format!("utf8-str-4byte{n}"), format!("fn v_mk()->str{{ \"😀\" * {n} }}"), 4 * n),
                 (format!("stack{n}"), format!("fn v_mk()->Stack<int>{{ range({n}).reduce(cast<Stack<int>>(stack()), (v_s: Stack<int>, v_i: int)->{{v_s.push(v_i)}}) }}"), 8 * n),
             ];
             // collections built from elements that are already alive: what the collection itself adds
@@ -452,6 +454,8 @@ impl Payload {
                             + std::mem::size_of::<xray::builtin::sequence::XSequence<crate::world::SimWriter, crate::world::SimRng, crate::world::SimClock>>()
                             + 8
                             + 8)),
+                    (format!("wide-structs{n}"), format!("struct V_R(v_a: int, v_b: int, v_c: int, v_d: int, v_e: int, v_f: int, v_g: int, v_h: int, v_i: int, v_j: int, v_k: int, v_l: int)\nlet v_one = 1;\nfn v_mk()->Sequence<V_R>{{ range({n}).map((v_x: int)->{{ V_R(v_one, v_one, v_one, v_one, v_one, v_one, v_one, v_one, v_one, v_one, v_one, v_one) }}).to_array() }}"), 12 * 8 * n),
+                    (format!("wide-tuples{n}"), format!("let v_one = 1;\nfn v_mk()->Sequence<(int, int, int, int, int, int, int, int)>{{ range({n}).map((v_x: int)->{{ (v_one, v_one, v_one, v_one, v_one, v_one, v_one, v_one) }}).to_array() }}"), 8 * 8 * n),
                     (format!("array-of-shared{n}"), format!("let v_src = range({n}).to_array();\nfn v_mk()->Sequence<int>{{ v_src.map((v_x: int)->{{v_x}}).to_array() }}"), 8 * n),
                 ]
             } else {
@@ -468,6 +472,27 @@ impl Payload {
                 ];
                 cases.push((sc, payload));
             }
+        }
+        // requests whose byte size saturates the machine word: refused by the limit, never a crash
+        for (label, prog) in [
+            ("huge-range-push", "fn v_mk()->int{ range(2 ** 62).push(1).len() }"),
+            ("huge-range-insert", "fn v_mk()->int{ range(2 ** 62).insert(0, 1).len() }"),
+            ("huge-range-to-array", "fn v_mk()->int{ range(2 ** 62).to_array().len() }"),
+            ("huge-range-sort", "fn v_mk()->int{ range(2 ** 62).sort().len() }"),
+            ("huge-repeat-to-array", "fn v_mk()->int{ [1].repeat(2 ** 62).to_array().len() }"),
+            ("huge-string-mul", "fn v_mk()->int{ (\"ab\" * (2 ** 62)).len() }"),
+            ("huge-pow", "fn v_mk()->bool{ 3 ** (2 ** 62) > 0 }"),
+        ] {
+            let mut sc = Scenario::standard(prog, Limits::calibration());
+            sc.limits.size = Some(200_000);
+            sc.label = format!("payload:{label}:refused");
+            sc.ops = vec![
+                HostOp::Instantiate { slot: 0 },
+                HostOp::Run { slot: 0, func: "v_mk".into() },
+                HostOp::DropAllResults,
+                HostOp::DropScope { slot: 0 },
+            ];
+            cases.push((sc, usize::MAX));
         }
         Some(Payload { cases })
     }
@@ -500,6 +525,14 @@ impl Job for Payload {
             out.violate(violation(P, P, f, sc));
         }
         let payload = self.cases[i].1;
+        if payload == usize::MAX {
+            let got = r.ops.get(1).map(|o| o.outcome.clone());
+            if !matches!(&got, Some(Outcome::Violation(v)) if v == "AllocationLimitReached") {
+                out.violate(violation(P, P, ("limit".into(), "a request larger than any limit was not refused".into(), format!("{got:?}")), sc));
+            }
+            out.probe("saturating_request_refused");
+            return;
+        }
         judge_payload(sc, &r, payload, out);
     }
 }
